@@ -249,6 +249,30 @@ pub fn de_with<T: DeserializeOwned>(cfg: u8, r: &mut dyn Read) -> Result<T, Stri
     r.map_err(|e| format!("{e}"))
 }
 
+pub fn de_slice_with<T: DeserializeOwned>(cfg: u8, bytes: &[u8]) -> Result<T, String> {
+    let r = match cfg {
+        0 => bincode::DefaultOptions::new()
+            .with_fixint_encoding()
+            .with_little_endian()
+            .deserialize(bytes),
+        1 => bincode::DefaultOptions::new()
+            .with_fixint_encoding()
+            .with_big_endian()
+            .deserialize(bytes),
+        2 => bincode::DefaultOptions::new()
+            .with_varint_encoding()
+            .with_little_endian()
+            .deserialize(bytes),
+        3 => bincode::DefaultOptions::new()
+            .with_varint_encoding()
+            .with_big_endian()
+            .deserialize(bytes),
+        // the plain top-level function users call first: bincode::deserialize(&bytes)
+        _ => bincode::deserialize(bytes),
+    };
+    r.map_err(|e| format!("{e}"))
+}
+
 /// Object-safe face of a qwt structure.
 pub trait DynDs: Send + Sync {
     fn kind(&self) -> String;
@@ -257,6 +281,8 @@ pub trait DynDs: Send + Sync {
     fn ser_into(&self, cfg: u8, w: &mut dyn Write) -> Result<(), String>;
     /// Deserializes a value of the same concrete type as `self`.
     fn de_from(&self, cfg: u8, r: &mut dyn Read) -> Result<Box<dyn DynDs>, String>;
+    /// Same from a byte slice (bincode's borrowing slice reader: a different code path than `de_from`).
+    fn de_slice(&self, cfg: u8, bytes: &[u8]) -> Result<Box<dyn DynDs>, String>;
     fn eq_dyn(&self, other: &dyn DynDs) -> bool;
     fn clone_box(&self) -> Box<dyn DynDs>;
     fn as_any(&self) -> &dyn Any;
@@ -340,6 +366,10 @@ macro_rules! tree_ds {
             }
             fn de_from(&self, cfg: u8, r: &mut dyn Read) -> Result<Box<dyn DynDs>, String> {
                 let v: $alias<T> = de_with(cfg, r)?;
+                Ok(Box::new($wrap(v)))
+            }
+            fn de_slice(&self, cfg: u8, bytes: &[u8]) -> Result<Box<dyn DynDs>, String> {
+                let v: $alias<T> = de_slice_with(cfg, bytes)?;
                 Ok(Box::new($wrap(v)))
             }
             common_ds!();
@@ -590,6 +620,10 @@ impl DynDs for BvDs {
         let v: BitVector = de_with(cfg, r)?;
         Ok(Box::new(BvDs(v)))
     }
+    fn de_slice(&self, cfg: u8, bytes: &[u8]) -> Result<Box<dyn DynDs>, String> {
+        let v: BitVector = de_slice_with(cfg, bytes)?;
+        Ok(Box::new(BvDs(v)))
+    }
     common_ds!();
     fn iter_box<'a>(&'a self, kind: IterKind) -> Option<Box<dyn DynIter + 'a>> {
         match kind {
@@ -620,6 +654,10 @@ impl DynDs for BvmDs {
     }
     fn de_from(&self, cfg: u8, r: &mut dyn Read) -> Result<Box<dyn DynDs>, String> {
         let v: BitVectorMut = de_with(cfg, r)?;
+        Ok(Box::new(BvmDs(v)))
+    }
+    fn de_slice(&self, cfg: u8, bytes: &[u8]) -> Result<Box<dyn DynDs>, String> {
+        let v: BitVectorMut = de_slice_with(cfg, bytes)?;
         Ok(Box::new(BvmDs(v)))
     }
     common_ds!();
@@ -669,6 +707,10 @@ macro_rules! rs_bin_impl {
             }
             fn de_from(&self, cfg: u8, r: &mut dyn Read) -> Result<Box<dyn DynDs>, String> {
                 let v: $ty = de_with(cfg, r)?;
+                Ok(Box::new($wrap(v, self.1)))
+            }
+            fn de_slice(&self, cfg: u8, bytes: &[u8]) -> Result<Box<dyn DynDs>, String> {
+                let v: $ty = de_slice_with(cfg, bytes)?;
                 Ok(Box::new($wrap(v, self.1)))
             }
             fn eq_dyn(&self, other: &dyn DynDs) -> bool {
@@ -729,6 +771,10 @@ impl<const S0: bool> DynDs for DaDs<S0> {
         let v: DArray<S0> = de_with(cfg, r)?;
         Ok(Box::new(DaDs(v)))
     }
+    fn de_slice(&self, cfg: u8, bytes: &[u8]) -> Result<Box<dyn DynDs>, String> {
+        let v: DArray<S0> = de_slice_with(cfg, bytes)?;
+        Ok(Box::new(DaDs(v)))
+    }
     common_ds!();
     fn iter_box<'a>(&'a self, kind: IterKind) -> Option<Box<dyn DynIter + 'a>> {
         match kind {
@@ -770,6 +816,10 @@ impl DynDs for QvDs {
     }
     fn de_from(&self, cfg: u8, r: &mut dyn Read) -> Result<Box<dyn DynDs>, String> {
         let v: QVector = de_with(cfg, r)?;
+        Ok(Box::new(QvDs(v)))
+    }
+    fn de_slice(&self, cfg: u8, bytes: &[u8]) -> Result<Box<dyn DynDs>, String> {
+        let v: QVector = de_slice_with(cfg, bytes)?;
         Ok(Box::new(QvDs(v)))
     }
     common_ds!();
@@ -815,6 +865,10 @@ macro_rules! rsq_ds {
             }
             fn de_from(&self, cfg: u8, r: &mut dyn Read) -> Result<Box<dyn DynDs>, String> {
                 let v: $ty = de_with(cfg, r)?;
+                Ok(Box::new($wrap(v)))
+            }
+            fn de_slice(&self, cfg: u8, bytes: &[u8]) -> Result<Box<dyn DynDs>, String> {
+                let v: $ty = de_slice_with(cfg, bytes)?;
                 Ok(Box::new($wrap(v)))
             }
             common_ds!();
